@@ -108,8 +108,22 @@ static void check_stats(const std::string &prop, const MSignal &s, const Op &o, 
         Exact e = exact_stats(s, o.a, inc);
         if (e.any_nan) {
             if (!dt_is_float(s.dtype)) return;
-            // float windows with NaN (gap) samples: C09 – summaries treat gap samples as absent; only judged when served from summaries is unknowable -> compare finite part loosely
-            ++n_calls_unjudged; return;
+            // float window containing skipped (gap) samples - C09: gap samples count as absent.  Entries that straddle the gap are weighted
+            // as if complete (at every level), so the mean is only required to lie within the extremes of the samples that are present;
+            // min and max are exact over those; a window without any present sample has no statistics (all NaN).
+            int64_t present = 0; for (int64_t i = 0; i < inc; ++i) if (!std::isnan((double) s.value(o.a + i))) ++present;
+            double mean = d[0], mn = d[2], mx = d[3];
+            if (present == 0) {
+                if (!(std::isnan(mean) && std::isnan(mn) && std::isnan(mx)))
+                    add_violation(v, prop, "gap_window_not_absent", fmt("sig=%d %s start=%lld inc=%lld lies inside a gap: mean=%.17g min=%.17g max=%.17g, expected no statistics (NaN)", s.id, dt_name[s.dtype], (long long) o.a, (long long) inc, mean, mn, mx), ri);
+                return;
+            }
+            long double tolg = C * eps * std::max(fabsl(e.mn), fabsl(e.mx)) + 1e-300L;
+            if (std::isnan(mean) || std::isnan(mn) || std::isnan(mx) || to_store(s.dtype, mn) != to_store(s.dtype, e.mn) || to_store(s.dtype, mx) != to_store(s.dtype, e.mx)
+                || (long double) mean < to_store(s.dtype, e.mn) - tolg || (long double) mean > to_store(s.dtype, e.mx) + tolg)
+                add_violation(v, prop, "gap_samples_not_absent", fmt("sig=%d %s start=%lld inc=%lld (%lld of %lld samples present): mean=%.17g min=%.17g max=%.17g; present samples have min=%.17Lg max=%.17Lg", s.id, dt_name[s.dtype],
+                                                                     (long long) o.a, (long long) inc, (long long) present, (long long) inc, mean, mn, mx, e.mn, e.mx), ri);
+            return;
         }
         long double mag = std::max(fabsl(e.mn), fabsl(e.mx));
         long double tol = (C * eps + (long double) inc * ldexpl(1, -52)) * mag + 1e-300L;
